@@ -60,6 +60,7 @@ V12_DATA = ["V12_sections.encode_data_segments.*", "V12_sections.fn:Module::enco
 V12_GLOBALS = ["V12_sections.encode_globals.*", "V12_sections.fn:Module::encode_globals", "V12_sections.fn:ModuleGlobals::iter_mut", "V12_sections.fn:Global as GetID::*"]
 V12_IMPORTS = ["V12_sections.encode_imports.*", "V12_sections.fn:Module::encode_imports", "V12_sections.fn:ModuleImports::iter", "V12_sections.fn:Import::is_function"]
 V12_MEMS = ["V12_sections.encode_memories.local_memories_in_order_with_own_type", "V12_sections.fn:Module::encode_memories", "V12_sections.fn:Memories as Iter::iter"]
+V12_CEXPR = ["V12_sections.encode_element_exprs.*", "V12_sections.fn:Module::encode_element_exprs", "V12_sections.remap_const_expr.*", "V12_sections.fn:remap_const_expr"]
 V12_CUSTOM = ["V12_sections.encode_custom_sections.*", "V12_sections.fn:Module::encode_custom_sections", "V12_sections.fn:CustomSections::iter"]
 V12_TRUST = ["TRUSTED model of the wasm-encoder section builders (V12): an export / data / custom section under construction is the sequence of entries handed to it; ExportKind::from(ExternalKind) is faithful; InitExpr::to_wasmencoder_type is faithful (numeric constants: Kani K4)",
              "V12 names three expressions of the data loop and one statement of the custom-section loop by rule R11 (iterator adapters / generic builders are outside Verus): their contracts are assumed; V12 assumes the InitInstr::fix_id_mapping contract that V3 proves",
@@ -149,7 +150,7 @@ PROPS = {
             "V3_remap.refers_to_func.*", "V3_remap.fn:refers_to_func", "V3_remap.update_fn_instr.*", "V3_remap.fn:update_fn_instr",
             "V3_remap.fix_op_id_mapping.*", "V3_remap.fn:fix_op_id_mapping", "V3_remap.InitInstr.*", "V3_remap.fn:InitInstr::fix_id_mapping",
             "V3_remap.fn:lemma_families_disjoint"],
-        "obligations_extra": V12_IMPORTS + V12_EXPORTS + V12_START + V12_DATA + ["V11_emit.fn:encode_function_body", "V11_emit.update_ids_and_encode.*", "V11_emit.fn:update_ids_and_encode"],
+        "obligations_extra": V12_CEXPR + V12_IMPORTS + V12_EXPORTS + V12_START + V12_DATA + ["V11_emit.fn:encode_function_body", "V11_emit.update_ids_and_encode.*", "V11_emit.fn:update_ids_and_encode"],
         "glue": V11_TRUST + V12_TRUST + [ENCODE_GLUE, "export / start / element-segment remapping lines in encode_internal", "'output validates' (wasmparser validator) is not decided"],
         "design_ref": "DESIGN.md §4 V2 V3, §5 C06",
     },
@@ -159,7 +160,7 @@ PROPS = {
         "obligations": V2_GENERIC + v2_inst("Global", "ModuleGlobals") + V6_GLOBALS + [
             "V3_remap.refers_to_global.*", "V3_remap.fn:refers_to_global", "V3_remap.update_global_instr.*", "V3_remap.fn:update_global_instr",
             "V3_remap.fix_op_id_mapping.*", "V3_remap.fn:fix_op_id_mapping", "V3_remap.InitInstr.*", "V3_remap.fn:InitInstr::fix_id_mapping"],
-        "obligations_extra": V12_GLOBALS + V12_EXPORTS + V12_DATA + ["V11_emit.fn:encode_function_body", "V11_emit.update_ids_and_encode.*", "V11_emit.fn:update_ids_and_encode"],
+        "obligations_extra": V12_CEXPR + V12_GLOBALS + V12_EXPORTS + V12_DATA + ["V11_emit.fn:encode_function_body", "V11_emit.update_ids_and_encode.*", "V11_emit.fn:update_ids_and_encode"],
         "glue": V11_TRUST + V12_TRUST + [ENCODE_GLUE, "global export emission; table/element constant expressions", "'output validates' is not decided"],
         "design_ref": "DESIGN.md §4 V2 V3, §5 C07",
     },
